@@ -76,6 +76,19 @@ fn dec_case(o: &mut Out, b: &[u8], fam: &str) {
     let nt = r != "err" || b.len() >= 2;
     o.op(format!("varint_dec {}", hex(b)), nt);
 }
+/// independent reading in Rust, in the result format of `varint_decx`: the position of the first byte without continuation bit
+/// decides everything (none: end of input after all bytes; a zero byte there, not first: zero rule; else the value, in 128 bits)
+fn positional(b: &[u8]) -> String {
+    match b.iter().position(|x| *x < 0x80) {
+        None => format!("err:eof {}", b.len()),
+        Some(i) if i >= 1 && b[i] == 0 => format!("err:zero {}", i + 1),
+        Some(i) => {
+            let mut v: u128 = 0; let mut big = false;
+            for (j, x) in b[..=i].iter().enumerate() { if j * 7 < 120 { v |= ((x & 0x7f) as u128) << (7 * j); } else if x & 0x7f != 0 { big = true; } }
+            if big || v > u64::MAX as u128 { format!("err:overflow {}", i + 1) } else { format!("ok {} {}", v, i + 1) }
+        }
+    }
+}
 /// the same input through the operations that show what `varint_dec` collapses: failure kind + reader position, and the
 /// whole-buffer entry point `deserialize::<VarInt>`
 fn decx_case(o: &mut Out, b: &[u8], fam: &str) {
@@ -88,16 +101,7 @@ fn decx_case(o: &mut Out, b: &[u8], fam: &str) {
 fn decx_direct(o: &mut Out, b: &[u8], fam: &str) -> String {
     let r = decx_line(b);
     o.stat(&format!("decx.{}.{}", fam, r.split(' ').next().unwrap_or("")));
-    // independent reading in Rust: position of the first byte without continuation bit decides everything
-    let want = match b.iter().position(|x| *x < 0x80) {
-        None => format!("err:eof {}", b.len()),
-        Some(i) if i >= 1 && b[i] == 0 => format!("err:zero {}", i + 1),
-        Some(i) => {
-            let mut v: u128 = 0; let mut big = false;
-            for (j, x) in b[..=i].iter().enumerate() { if j * 7 < 120 { v |= ((x & 0x7f) as u128) << (7 * j); } else if x & 0x7f != 0 { big = true; } }
-            if big || v > u64::MAX as u128 { format!("err:overflow {}", i + 1) } else { format!("ok {} {}", v, i + 1) }
-        }
-    };
+    let want = positional(b);
     let id = if b.len() <= 64 { hex(b) } else { format!("{}..({} bytes)..{}", hex(&b[..8]), b.len(), hex(&b[b.len() - 2..])) };
     o.direct(r == want, "varint: verdict / failure kind / reader position equal the direct positional reading", format!("varint_decx {}", id), r.clone(), want);
     let des = deserialize::<VarInt>(b).ok().map(|v| v.0);
@@ -216,6 +220,16 @@ pub fn run(o: &mut Out, tier: &str, seed: u64) {
         let r = decx_direct(o, &b, "huge");
         o.direct(r.starts_with("err"), "varint: a string starting with ten continuation bytes is rejected", format!("varint_decx {:02x}^{} {:?}", c, k, end), r.clone(), "err".into());
     } } }
+    // (10) EVERY string of three bytes, in the quick tier too: real decoder (verdict, value, failure kind, reader position) against the
+    //      positional reading, in Rust only (no operation lines; the model sees this domain in the thorough tier, family (2))
+    let mut bad = 0u32;
+    for a in 0..=255u8 { for b in 0..=255u8 { for c in 0..=255u8 {
+        let s3 = [a, b, c];
+        let (r, want) = (decx_line(&s3), positional(&s3));
+        if r != want { bad += 1; if bad <= 5 { o.direct(false, "varint: verdict / failure kind / reader position equal the direct positional reading", format!("varint_decx {}", hex(&s3)), r, want); } }
+    } } }
+    o.direct(bad == 0, "varint: all 16 777 216 three-byte strings agree with the positional reading", "varint_decx <all 3-byte strings>".into(), format!("{} disagreements", bad), "0 disagreements".into());
+    o.stat_n("decx.len3.direct_only", 1 << 24);
     // (9) error kind / position / whole-buffer entry point on: a slice of the exhaustive 2-byte domain (all of it in thorough), the
     //     1-byte domain, the boundary families of (3), a third of fresh random strings, encodings with and without suffix
     dec_case(o, &[], "len0"); decx_case(o, &[], "len0");
